@@ -775,6 +775,22 @@ def object_campaign(sess, rng, count, kinds=KINDS):
         nested = [[pool[0], pool[1]], [pool[2]]]
         sess.deepcopy(nested)
         sess.deepcopy([nested, (pool[3], [pool[4]])])
+        # a stored snapshot of a player (same id) beside the live player whose values have moved on
+        snap = sess.deepcopy(pool[5])
+        sess.assign(pool[5], pool[5].mu + 1.5, pool[5].sigma * 0.5 + 0.25)
+        sess.deepcopy([[pool[5]], [snap]])
+        sess.deepcopy([snap, pool[5], [pool[5], snap]])
+        # the same comparisons on every class (C19: the five classes compare by the same rules)
+        for _q in range(4):
+            va = (rng.choice(grid_mu), rng.choice(grid_sg))
+            vb = (rng.choice(grid_mu), rng.choice(grid_sg))
+            if rng.random() < 0.5:   # equal ordinals, different (mu, sigma)
+                d = rng.choice([0.5, 1.0, 1.5])
+                vb = (va[0] + 3.0 * d, va[1] + d)
+            cop = rng.choice(["lt", "le", "gt", "ge", "eq", "ne"])
+            gid = GID.new("C19", "cmp")
+            for i, m2 in enumerate([mh] + others):
+                sess.compare(cop, m2.m.rating(*va), m2.m.rating(*vb), group=gid, role="same" if i else "base")
         # hashes: equal for equal (id, mu, sigma), across copies and classes
         gid = GID.new("C19", "hash")
         import copy as _copy
